@@ -68,3 +68,19 @@ def run(ctx):
     from ..engines import provenance as PV13
     PV13.a13_add_rule_bookkeeping(ctx)
     ctx.floor("A13", 3)
+    from ..engines import expandverified as X19
+    X19.x8_cache_filled_before_the_database_is_made(ctx)
+    ctx.floor("X8", 1)
+    # shared after round 11: the inner search of an expansion runs on the default queue (every class gets every expansion set),
+    # folds its result into equivalence paths, and counts reverse products with the quotient recurrence
+    from ..engines import queueproto as Q19
+    from ..engines import closure as G19
+    from ..engines import recurrences as N19
+    Q19.q5_level_change(ctx)
+    Q19.q6_expansion_order(ctx)
+    Q19.q12_working_label_carried(ctx)
+    G19.g7_equivalence_folding(ctx)
+    N19.n4_quotient(ctx)
+    ctx.floor("Q6", 3)
+    ctx.floor("G7", 5)
+    ctx.floor("N4", 9)
